@@ -180,3 +180,35 @@ def toy_multi_scenario(draw, cap=300, max_phases=2, allow_profile=True):
         kf = draw(st.floats(0.0, 0.95))
         sc["gbe"] = min(2 * kf * KMAX[p["site"]] * p["gamma"] for p in gbs)
     return sc
+
+
+@st.composite
+def real_scenario(draw, cap=120, systems=("alzr", "nicral")):
+    """Scenarios on the shipped databases, close to the shipped examples (Al-Zr/Al3Zr binary, Ni-Al-Cr gamma prime)."""
+    sysn = draw(st.sampled_from(list(systems)))
+    cons = {"dtScale": draw(st.sampled_from([0.05, 0.2]))}
+    if sysn == "alzr":
+        T0 = draw(st.floats(650.0, 780.0))
+        a = 0.405e-9
+        sc = {"system": "alzr", "elements": ["ZR"], "x0": draw(st.floats(1.5e-3, 6e-3)),
+              "phases": [{"name": "AL3ZR", "xb": 0.25, "gamma": draw(st.floats(0.06, 0.14)), "site": draw(st.sampled_from(["bulk", "dislocations", "grain boundaries"])),
+                          "shape": "sphere", "VmB": [a ** 3, "VA", 4]}],
+              "VmA": [a ** 3, "VA", 4], "nucdens": {"grainSize": 1.0, "aspectRatio": 1.0, "dislocationDensity": 1e15}}
+        total = 10 ** draw(st.floats(3.0, 6.0))
+    else:
+        T0 = draw(st.floats(1000.0, 1120.0))
+        a = 0.352e-9
+        sc = {"system": "nicral", "elements": ["AL", "CR"], "x0": [draw(st.floats(0.085, 0.11)), draw(st.floats(0.06, 0.10))],
+              "phases": [{"name": "FCC_L12", "gamma": draw(st.floats(0.015, 0.035)), "site": "bulk", "shape": "sphere", "VmB": [a ** 3, "VA", 4]}],
+              "VmA": [a ** 3, "VA", 4]}
+        if draw(st.booleans()):
+            sc["phases"][0]["strain"] = 10 ** draw(st.floats(6.0, 7.3))
+        total = 10 ** draw(st.floats(1.0, 4.0))
+    if sc["phases"][0]["site"] in KMAX:
+        sc["gbe"] = 2 * draw(st.floats(0.1, 0.8)) * KMAX[sc["phases"][0]["site"]] * sc["phases"][0]["gamma"]
+    nd = draw(st.sampled_from([1, 1, 2]))
+    sc.update({"T": ["const", T0] if draw(st.integers(0, 3)) < 3 else ["array", [0.0, total / 3600 * 0.5], [T0, T0 - draw(st.floats(5.0, 40.0))]],
+               "pbm": {"cmin": 1e-10, "cmax": 1e-8, "bins": 75, "minBins": 50, "maxBins": 100, "adaptive": True},
+               "constraints": cons, "iterator": draw(st.sampled_from(["euler", "rk4"])),
+               "durations": [total] if nd == 1 else [total * 0.4, total * 0.6], "cap": cap})
+    return sc
